@@ -13,6 +13,7 @@ from .common import get_interp, show, Scheduler
 from .cloudworld import CloudWorld, Then, replay_scenario, replay_judge, validate_samples  # noqa: F401
 
 PROPERTY = 'C09'
+REPLAY_RETRIES = 2
 LEVEL = 'model_checking'
 
 
